@@ -347,6 +347,9 @@ func GenerateRef(r *hx.Rng) *RefProg {
 	if r.Chance(18) {
 		return g.storageRefProg()
 	}
+	if r.Chance(6) {
+		return g.structRefProg()
+	}
 	t, n := g.build(r.Intn(2) + 1)
 	g.tree = n
 	g.root = g.tmp("x")
@@ -447,6 +450,53 @@ func (g *fg) storageRefProg() *RefProg {
 	g.w("return 0")
 	g.b.WriteString("}\n")
 	return &RefProg{Src: g.b.String(), Expect: expect, Tags: tags, Forms: g.formList()}
+}
+
+// structRefProg: references to *non-resource* values (a struct, an array of structs) nested in a resource,
+// then a move of the resource, then one use.  The property requires the invalidated-reference error
+// ("any value nested inside it"); the unchanged tree does not invalidate such references (known finding
+// `nested-non-resource-reference-not-invalidated`).
+func (g *fg) structRefProg() *RefProg {
+	g.b.Reset()
+	g.b.WriteString(`access(all) struct S { access(all) var x: Int; init(_ x: Int) { self.x = x } }
+access(all) resource R2 {
+    access(all) var s: S
+    access(all) var arr: [S]
+    init() { self.s = S(1); self.arr = [S(2)] }
+}
+access(all) fun ids(_ r: &S): &S { return r }
+access(all) fun ida(_ r: &[S]): &[S] { return r }
+access(all) fun pass2(_ r: @R2): @R2 { return <- r }
+access(all) fun main(): Int {
+`)
+	g.form("ref-nested-struct")
+	g.w("let acct = getAuthAccount<auth(Storage) &Account>(0x1)")
+	g.w("let a <- create R2()")
+	g.w("let rs = ids(&a.s as &S)")
+	g.w("let ra = ida(&a.arr as &[S])")
+	switch g.r.Intn(3) {
+	case 0:
+		g.form("act-move-let")
+		g.w("let b <- a")
+	case 1:
+		g.form("act-move-call")
+		g.w("let b <- pass2(<- a)")
+	default:
+		g.form("act-save-load")
+		g.w("acct.storage.save(<- a, to: /storage/s2)")
+		g.w("let b <- acct.storage.load<@R2>(from: /storage/s2)!")
+	}
+	g.w(`log("=use")`)
+	if g.r.Bool() {
+		g.w("log(rs.x)")
+	} else {
+		g.w("log(ra.length)")
+	}
+	g.w(`log("=end")`)
+	g.w("destroy b")
+	g.w("return 0")
+	g.b.WriteString("}\n")
+	return &RefProg{Src: g.b.String(), Expect: "invalidated", Tags: nil, Forms: g.formList()}
 }
 
 // TagList renders the expected tags.
